@@ -265,7 +265,7 @@ let ekind_of (kind : string) : bytes ekind option =
   match uint_k kind with
   | Some k -> Some (ek_uint (nat_of_int k))
   | None -> (match kind with
-      | "h256" -> Some ek_h256 | "pair" -> Some (ek_pair hash_h) | "var" -> Some (ek_var hash_h) | "nl" -> Some (ek_nl hash_h)
+      | "h256" -> Some ek_h256 | "pair" -> Some (ek_pair hash_h) | "quad" -> Some (ek_quad hash_h) | "var" -> Some (ek_var hash_h) | "nl" -> Some (ek_nl hash_h)
       | _ -> None)
 
 let run_history (type u) (out : Buffer.t) (ek : bytes ekind) (m : (bytes, u) umap_impl) (vec_based : bool)
